@@ -30,7 +30,7 @@ def main(tier, only):
     cfgs = [dict(tag="", env={"VERIF_NMAX": str(nmax), "VERIF_L": str(L), "VERIF_D": str(D)}, only=["fixed_length"], timeout=to)]
     for t in range(-1, 5):
         cfgs.append(dict(tag="target%d" % t, env={"VERIF_L": str(L), "VERIF_TARGET": str(t)}, only=["count"], timeout=to))
-    run.bounds = dict(fixed_length="target length 0..%d (symbolic), 4 grammars x every nonterminal as start, every periodic random stream of period %d" % (nmax, D),
+    run.bounds = dict(fixed_length="target length 0..%d (symbolic), 5 grammars (one with indirectly nullable nonterminals) x every nonterminal as start, every periodic random stream of period %d" % (nmax, D),
                       count="partial trees decodable from <= %d choices of a list grammar with two independent needle positions, target -1..4 (string and tree numerals), 3 needles" % L)
     run.engines = dict(crosshair="crosshair-tool 0.0.110 on z3 4.11.2")
     run.trusted = ["tree validator, needle counting and reachability (GrammarGraph.reachable) in the harness"]
